@@ -109,6 +109,19 @@ func RunParse(t *testing.T, c *Case, s Sched, keepLog bool) *Obs {
 	if pr != nil {
 		o.PosAfterDrain = pr.Pos()
 	}
+	if (sr != nil && sr.Fired > 0) || (br != nil && br.Fired > 0) {
+		k := c.Reader.Kind + "/" + c.Reader.FaultKind
+		if c.Reader.FaultCall != 0 {
+			k = c.Reader.Kind + "/nth-call/" + c.Reader.FaultKind
+		}
+		if c.Reader.DataErr {
+			k += "+data"
+		}
+		if c.Reader.ErrKind != "" {
+			k += "/" + c.Reader.ErrKind
+		}
+		o.Faults = map[string]int{k: 1}
+	}
 	if sr != nil {
 		o.Fired, o.FiredBeforeReturn = sr.Fired > 0, sr.FiredRet
 		o.ReaderOps, o.ReaderEOFs, o.UnreadAfterUnread = sr.Ops, sr.EOFs, sr.UnreadAfterUnread
